@@ -575,7 +575,10 @@ impl<'a, 'b> Gen<'a, 'b> {
                         self.kw("new");
                     }
                 }
+                3 if self.t.chance(1, 3) => self.constraint_declaration(),
+                3 if self.t.chance(1, 2) => self.method_prototype(),
                 3 => self.typedef(),
+                _ if self.t.chance(1, 3) => self.covergroup_declaration(),
                 _ => self.param_declaration(false),
             }
         }
@@ -583,6 +586,209 @@ impl<'a, 'b> Gen<'a, 'b> {
         self.end_label(&name);
         self.in_class = saved_class;
         self.vars.truncate(saved);
+    }
+
+    /// constraint declaration (A.1.10), simple expression / implication / dist / foreach items
+    pub fn constraint_declaration(&mut self) {
+        self.tag("constraint");
+        if self.t.chance(1, 4) {
+            self.kw("static");
+        }
+        self.kw("constraint");
+        let name = self.fresh();
+        self.id(&name);
+        self.sym("{");
+        let n = self.t.below(4);
+        for _ in 0..n {
+            match self.t.below(5) {
+                0 => {
+                    if self.t.chance(1, 4) {
+                        self.kw("soft");
+                    }
+                    self.var_ref_ident_only();
+                    let op = *self.t.pick(&["<", ">", "==", "!=", "<=", ">="]);
+                    self.sym(op);
+                    self.small_const();
+                    self.sym(";");
+                }
+                1 => {
+                    self.var_ref_ident_only();
+                    self.sym("->");
+                    self.sym("{");
+                    self.var_ref_ident_only();
+                    self.sym("==");
+                    self.small_const();
+                    self.sym(";");
+                    self.sym("}");
+                }
+                2 => {
+                    self.var_ref_ident_only();
+                    self.kw("dist");
+                    self.sym("{");
+                    self.small_const();
+                    self.sym(":=");
+                    self.small_const();
+                    self.sym(",");
+                    self.sym("[");
+                    self.small_const();
+                    self.sym(":");
+                    self.small_const();
+                    self.sym("]");
+                    self.sym(":/");
+                    self.small_const();
+                    self.sym("}");
+                    self.sym(";");
+                }
+                3 => {
+                    self.var_ref_ident_only();
+                    self.kw("inside");
+                    self.sym("{");
+                    self.small_const();
+                    self.sym(",");
+                    self.sym("[");
+                    self.small_const();
+                    self.sym(":");
+                    self.small_const();
+                    self.sym("]");
+                    self.sym("}");
+                    self.sym(";");
+                }
+                _ => {
+                    self.kw("if");
+                    self.sym("(");
+                    self.var_ref_ident_only();
+                    self.sym(")");
+                    self.var_ref_ident_only();
+                    self.sym("==");
+                    self.small_const();
+                    self.sym(";");
+                    if self.t.flip() {
+                        self.kw("else");
+                        self.var_ref_ident_only();
+                        self.sym("!=");
+                        self.small_const();
+                        self.sym(";");
+                    }
+                }
+            }
+        }
+        self.sym("}");
+    }
+
+    /// pure virtual / extern method prototypes
+    pub fn method_prototype(&mut self) {
+        self.tag("method-prototype");
+        if self.t.flip() {
+            self.kw("pure");
+            self.kw("virtual");
+        } else {
+            self.kw("extern");
+            if self.t.chance(1, 3) {
+                self.kw("virtual");
+            }
+        }
+        if self.t.flip() {
+            self.kw("function");
+            let ty = *self.t.pick(&["int", "void", "bit", "string"]);
+            self.kw(ty);
+            let name = self.fresh();
+            let tk = self.id(&name);
+            self.expect(tk, "FunctionIdentifier", F_DESIGN, &["FunctionPrototype"]);
+            self.sym("(");
+            if self.t.flip() {
+                self.kw("input");
+                self.kw("int");
+                self.id("pa_1");
+            }
+            self.sym(")");
+        } else {
+            self.kw("task");
+            let name = self.fresh();
+            let tk = self.id(&name);
+            self.expect(tk, "TaskIdentifier", F_DESIGN, &["TaskPrototype"]);
+            self.sym("(");
+            self.sym(")");
+        }
+        self.sym(";");
+    }
+
+    /// covergroup declaration (A.2.11), simple coverpoints / bins / cross
+    pub fn covergroup_declaration(&mut self) {
+        self.tag("covergroup");
+        self.kw("covergroup");
+        let name = self.fresh();
+        self.id(&name);
+        if self.t.flip() {
+            self.event_control_simple();
+        }
+        self.sym(";");
+        let n = self.t.below(4);
+        let mut points: Vec<String> = Vec::new();
+        for _ in 0..n {
+            match self.t.below(4) {
+                0 | 1 => {
+                    let label = self.fresh();
+                    self.id(&label);
+                    self.sym(":");
+                    self.kw("coverpoint");
+                    self.var_ref_ident_only();
+                    if self.t.flip() {
+                        self.sym("{");
+                        let b = self.t.below(3);
+                        for _ in 0..b {
+                            let k = *self.t.pick(&["bins", "illegal_bins", "ignore_bins"]);
+                            self.kw(k);
+                            let bn = self.fresh();
+                            self.id(&bn);
+                            if self.t.chance(1, 3) {
+                                self.sym("[");
+                                self.sym("]");
+                            }
+                            self.sym("=");
+                            if self.t.chance(1, 4) {
+                                self.kw("default");
+                            } else {
+                                self.sym("{");
+                                self.small_const();
+                                self.sym(",");
+                                self.sym("[");
+                                self.small_const();
+                                self.sym(":");
+                                self.small_const();
+                                self.sym("]");
+                                self.sym("}");
+                            }
+                            self.sym(";");
+                        }
+                        self.sym("}");
+                    } else {
+                        self.sym(";");
+                    }
+                    points.push(label);
+                }
+                2 => {
+                    if points.len() >= 2 {
+                        self.kw("cross");
+                        let a = points[0].clone();
+                        let b = points[1].clone();
+                        self.id(&a);
+                        self.sym(",");
+                        self.id(&b);
+                        self.sym(";");
+                    }
+                }
+                _ => {
+                    self.kw("option");
+                    self.sym(".");
+                    self.id("per_instance");
+                    self.sym("=");
+                    self.num("1");
+                    self.sym(";");
+                }
+            }
+        }
+        self.kw("endgroup");
+        self.end_label(&name);
     }
 
     /// data declaration of a class property (no `var`/`const` prefix to stay within class_property)
@@ -604,6 +810,244 @@ impl<'a, 'b> Gen<'a, 'b> {
         self.vars.push(name);
     }
 
+    /// UDP declaration (A.5): ANSI and non-ANSI headers, combinational and sequential tables
+    pub fn udp_declaration(&mut self) {
+        self.tag("udp");
+        let seq = self.t.flip();
+        self.kw("primitive");
+        let name = self.fresh();
+        let tk = self.id(&name);
+        let out = self.fresh();
+        let ins: Vec<String> = (0..(1 + self.t.below(3))).map(|_| self.fresh()).collect();
+        let ansi = self.t.flip();
+        self.expect(tk, "UdpIdentifier", F_DESIGN, &["UdpDeclaration"]);
+        self.sym("(");
+        if ansi {
+            self.kw("output");
+            if seq {
+                self.kw("reg");
+            }
+            self.id(&out);
+            if seq && self.t.chance(1, 3) {
+                self.sym("=");
+                self.num("1'b0");
+            }
+            for i in &ins {
+                self.sym(",");
+                self.kw("input");
+                self.id(i);
+            }
+            self.sym(")");
+            self.sym(";");
+        } else {
+            self.id(&out);
+            for i in &ins {
+                self.sym(",");
+                self.id(i);
+            }
+            self.sym(")");
+            self.sym(";");
+            self.kw("output");
+            self.id(&out);
+            self.sym(";");
+            self.kw("input");
+            for (k, i) in ins.iter().enumerate() {
+                if k > 0 {
+                    self.sym(",");
+                }
+                self.id(i);
+            }
+            self.sym(";");
+            if seq {
+                self.kw("reg");
+                self.id(&out);
+                self.sym(";");
+            }
+        }
+        if seq && self.t.chance(1, 3) {
+            self.kw("initial");
+            self.id(&out);
+            self.sym("=");
+            let v = *self.t.pick(&["1'b0", "1'b1", "1'bx", "0", "1"]);
+            self.num(v);
+            self.sym(";");
+        }
+        self.kw("table");
+        // table entries are level / edge symbols (not identifiers or numbers): emitted as symbol tokens
+        let rows = 1 + self.t.below(3);
+        for _ in 0..rows {
+            if seq {
+                let edge_at = if self.t.flip() { Some(self.t.below(ins.len())) } else { None };
+                for k in 0..ins.len() {
+                    if edge_at == Some(k) {
+                        if self.t.flip() {
+                            self.sym("(");
+                            let a = *self.t.pick(&["0", "1", "x", "?", "b"]);
+                            let b = *self.t.pick(&["0", "1", "x"]);
+                            self.tsym(a);
+                            self.tsym(b);
+                            self.sym(")");
+                        } else {
+                            let e = *self.t.pick(&["r", "f", "p", "n", "*"]);
+                            self.tsym(e);
+                        }
+                    } else {
+                        let l = *self.t.pick(&["0", "1", "x", "?", "b"]);
+                        self.tsym(l);
+                    }
+                }
+                self.sym(":");
+                let cs = *self.t.pick(&["0", "1", "?", "x", "b"]);
+                self.tsym(cs);
+                self.sym(":");
+                let ns = *self.t.pick(&["0", "1", "x", "-"]);
+                self.tsym(ns);
+                self.sym(";");
+            } else {
+                for _ in 0..ins.len() {
+                    let l = *self.t.pick(&["0", "1", "x", "?", "b"]);
+                    self.tsym(l);
+                }
+                self.sym(":");
+                let o = *self.t.pick(&["0", "1", "x"]);
+                self.tsym(o);
+                self.sym(";");
+            }
+        }
+        self.kw("endtable");
+        self.kw("endprimitive");
+        self.end_label(&name);
+    }
+
+    /// UDP table symbol: word-like ones (0 1 x b r f p n) are spaced like words, the others are plain symbols
+    fn tsym(&mut self, s: &str) {
+        if s.chars().all(|c| c.is_ascii_alphanumeric()) {
+            self.raw(s);
+        } else {
+            self.sym(s);
+        }
+    }
+
+    /// config declaration (A.1.5)
+    pub fn config_declaration(&mut self) {
+        self.tag("config");
+        self.kw("config");
+        let name = self.fresh();
+        self.id(&name);
+        self.sym(";");
+        if self.t.chance(1, 3) {
+            self.kw("localparam");
+            let p = self.fresh();
+            self.id(&p);
+            self.sym("=");
+            self.small_const();
+            self.sym(";");
+        }
+        self.kw("design");
+        let n = 1 + self.t.below(2);
+        for _ in 0..n {
+            if self.t.flip() {
+                self.id("lib_a");
+                self.sym(".");
+            }
+            self.id("top_cell");
+        }
+        self.sym(";");
+        let r = self.t.below(4);
+        for _ in 0..r {
+            match self.t.below(3) {
+                0 => {
+                    self.kw("default");
+                    self.kw("liblist");
+                    self.id("lib_a");
+                    if self.t.flip() {
+                        self.id("lib_b");
+                    }
+                }
+                1 => {
+                    self.kw("instance");
+                    self.id("top_cell");
+                    self.sym(".");
+                    self.id("u1");
+                    if self.t.flip() {
+                        self.kw("liblist");
+                        self.id("lib_b");
+                    } else {
+                        self.kw("use");
+                        self.id("lib_b");
+                        self.sym(".");
+                        self.id("cell_x");
+                        if self.t.chance(1, 3) {
+                            self.sym(":");
+                            self.kw("config");
+                        }
+                    }
+                }
+                _ => {
+                    self.kw("cell");
+                    if self.t.flip() {
+                        self.id("lib_a");
+                        self.sym(".");
+                    }
+                    self.id("cell_y");
+                    self.kw("use");
+                    self.id("cell_z");
+                }
+            }
+            self.sym(";");
+        }
+        self.kw("endconfig");
+        self.end_label(&name);
+    }
+
+    /// checker declaration (A.1.8), simple
+    pub fn checker_declaration(&mut self) {
+        self.tag("checker");
+        let saved = self.vars.len();
+        self.kw("checker");
+        let name = self.fresh();
+        let tk = self.id(&name);
+        self.expect(tk, "CheckerIdentifier", F_DESIGN, &["CheckerDeclaration"]);
+        if self.t.flip() {
+            self.sym("(");
+            let n = self.t.below(3);
+            for i in 0..n {
+                if i > 0 {
+                    self.sym(",");
+                }
+                if self.t.flip() {
+                    let d = *self.t.pick(&["input", "output"]);
+                    self.kw(d);
+                }
+                let ty = *self.t.pick(&["logic", "bit", "event", "untyped"]);
+                self.kw(ty);
+                let p = self.fresh();
+                self.id(&p);
+                self.vars.push(p);
+            }
+            self.sym(")");
+        }
+        self.sym(";");
+        let n = self.t.below(4);
+        for _ in 0..n {
+            match self.t.below(4) {
+                0 => self.var_declaration(),
+                1 => {
+                    self.kw("default");
+                    self.kw("disable");
+                    self.kw("iff");
+                    self.var_ref_ident_only();
+                    self.sym(";");
+                }
+                2 => self.initial_construct(),
+                _ => self.function_declaration(false),
+            }
+        }
+        self.kw("endchecker");
+        self.end_label(&name);
+        self.vars.truncate(saved);
+    }
+
     pub fn source_text(&mut self) {
         if self.t.chance(1, 12) {
             self.tag("timeunits");
@@ -622,7 +1066,10 @@ impl<'a, 'b> Gen<'a, 'b> {
             if before > 0 {
                 self.p.top_boundaries.push(before - 1);
             }
-            match self.t.weighted(&[10, 2, 2, 2, 2, 1, 1, 1]) {
+            match self.t.weighted(&[10, 2, 2, 2, 2, 1, 1, 1, 1, 1, 1]) {
+                8 => self.udp_declaration(),
+                9 => self.config_declaration(),
+                10 => self.checker_declaration(),
                 0 => self.module_declaration(1),
                 1 => self.interface_declaration(),
                 2 => self.program_declaration(),
